@@ -54,9 +54,10 @@ int skinny64_parallel_ecb_init(Skinny64ParallelECB_t *ecb)
     Skinny64Key_t *ctx;
     if (!ecb)
         return 0;
+    ecb->vtable = 0;
+    ecb->ctx = 0;
     if ((ctx = calloc(1, sizeof(Skinny64Key_t))) == NULL)
         return 0;
-    ecb->vtable = 0;
     ecb->ctx = ctx;
     ecb->parallel_size = 8 * SKINNY64_BLOCK_SIZE;
     if (_skinny_has_vec128())
